@@ -1,11 +1,11 @@
 (* driver for m_cachekey:
      hist <key component indices> <output-affecting indices> <req>;<req>;...
-   where <req> = <bypass 0/1>:<value id of input 0>,<value id of input 1>,...
+   where <req> = <bypass 0/1><compilation fails 0/1>:<value id of input 0>,<value id of input 1>,...
    answer: one of H (hit) M (miss) B (bypass) per request, followed by ! when the returned
    result differs from a fresh compilation of that request; comma separated *)
 let parse_req s =
   match String.split_on_char ':' s with
-  | [f; vals] -> (bool_of_string f, nlist_of_string vals)
+  | [f; vals] when String.length f = 2 -> ((f.[0] = '1', f.[1] = '1'), nlist_of_string vals)
   | _ -> failwith "req"
 
 let show (h, stale) =
